@@ -136,7 +136,7 @@ pub fn ob_remove<S: Src, const N: usize>(s: &mut S) -> Chk {
     req!(s, st.kind[i] == K_FULL);
     let mut t = build(&st);
     let del = spec_erase_writes_deleted(&st, i);
-    reach!(del || N < Group::WIDTH, "erase must leave a tombstone");
+    reach!(del || N <= Group::WIDTH, "erase must leave a tombstone");
     reach!(!del, "erase may restore EMPTY");
     let (v, slot) = unsafe { t.remove(t.bucket(i)) };
     ensure!(v == st.val[i], "remove: returns the stored element");
